@@ -73,6 +73,12 @@ def gen_case(rng, odd=False):
             c["domain_ok"] = True
     common = [n for n, _ in c["src"] if n in {m for m, _ in c["ref"]}]
     c["outcome"] = {n: rng.choice(["pass", "pass", "fail", "raise", "shape", "selector_raise"]) for n in common}
+    if kind != "table" and len(c["types"]) == 2 and rng.random() < 0.15:
+        # the QUAD block is declared but holds no cell: its cell fields (empty arrays) are fields like any other
+        c["empty_quad"] = True
+        for n in common:
+            if n.endswith(" @ QUAD") and c["outcome"][n] in ("fail", "raise"):
+                c["outcome"][n] = "pass"
     # a predicate selector only sees the annotation-free name: a raising selection applies to every field of that base name
     bases_raise = {dict(c["src"])[n] for n, o in c["outcome"].items() if o == "selector_raise"}
     for n in common:
@@ -146,6 +152,8 @@ def run_impl(c):
         pts = np.array([[0.0, 0.0], [1.0, 0.0], [1.0, 1.0], [0.0, 1.0], [2.0, 0.0], [2.0, 1.0]])
         conn = {"TRIANGLE": np.array([[1, 4, 5], [1, 5, 2]]), "QUAD": np.array([[0, 1, 2, 3]])}
         ct = {"TRIANGLE": CellTypes.triangle, "QUAD": CellTypes.quad}
+        if c.get("empty_quad"):
+            conn["QUAD"] = np.zeros((0, 4), dtype=np.int64)
 
         def mk(side, pc, moved):
             p = pts.copy()
